@@ -10,13 +10,20 @@ stable insertion sort by PauliString.__lt__ (Model/Collection.sort_strs); `L.rem
 A method that returns None and changes its list arguments in place (`_append_to_queue`) returns the final values of its list parameters, which the
 caller rebinds.  `for p in L:` whose body removes from L, continues or returns is an index loop over the live list (CPython's list iterator: position
 i, stop when i >= len(L)) on fuel; `while c:` is a loop on fuel; a `for` over a list that the body leaves alone is a fold.  `return None, None` is FNone;
-unpacking it and then calling `<list>.remove(<first name>)` raises ValueError (None is no member)."""
+unpacking it and then calling `<list>.remove(<first name>)` raises ValueError (None is no member).
+Second group (the dependency test of append_to_center): is_empty_legs, get_vertices, _gen_one_legs, get_one_vertices, check_dependency_one_leg.  `self.legs` (a list of
+lists of strings) is a parameter of every function that reads it or calls one that does; `a @ b` is PauliString.multiply without the phase (Model/Pauli.multiply_code:
+ValueError on unequal lengths); `set(self.get_vertices())` is the list of the vertices — the set is only searched (`in`) and iterated by a loop that either raises
+DependentException or goes on, so neither the order nor repeated members matter; `x.copy()` of a string is x; a generator returns the list of what it yields;
+`for i in range(a, b)` with `break` is structural recursion over the indices a..b-1 (b read once); `raise X(...)` is FRaised (EUser "X"); a method whose body is one
+`return <condition>` is a bool function."""
 import ast, os
 from py2coq import Unsupported, bad
 
 PROP = "| FNone => FNone | FRaised e_ => FRaised e_ | FNonInt => FNonInt | FOutOfFuel => FOutOfFuel end"
 VE = 'FRaised (EUser "ValueError"%string)'
-CT = {"ps": "pstr", "list": "(list pstr)", "int": "Z"}
+CT = {"ps": "pstr", "list": "(list pstr)", "int": "Z", "legs": "(list (list pstr))", "bool": "bool", "unit": "unit"}
+ELT = {"list": "ps", "legs": "list"}
 
 
 def pat(names):
@@ -38,10 +45,20 @@ class QFn:
             else: bad(a, "parameter type %s" % t)
         r = ast.unparse(node.returns)
         self.mutator = r == "None"
-        if self.mutator: self.ret = [t for _, t in self.params if t == "list"]; self.retnames = [n for n, t in self.params if t == "list"]
+        self.generator = any(isinstance(n, (ast.Yield, ast.YieldFrom)) for n in ast.walk(node))
+        src = ast.unparse(node)
+        self.needs_legs = "self.legs" in src or any(f.needs_legs and ("self.%s(" % f.name) in src for f in tr.fns.values())
+        if self.needs_legs: self.params.insert(0, ("self_legs", "legs"))
+        self.purebool = False
+        if self.mutator:
+            self.retnames = [n for n, t in self.params if t == "list"]
+            self.ret = ["list"] * len(self.retnames) if self.retnames else ["unit"]
+        elif self.generator and r == "Generator[list[list[PauliString]], None, None]": self.ret = ["legs"]
         elif r == "list[PauliString]": self.ret = ["list"]
+        elif r == "bool": self.ret = ["bool"]; self.purebool = True
         elif r == "tuple[PauliString | None, list[PauliString] | None]": self.ret = ["ps", "list"]
         else: bad(node, "return type %s" % r)
+        self.brk = None
         self.fuel = False
         self.fuelname = "fuel"
         self.aux = []        # loop Fixpoints emitted before the function
@@ -56,19 +73,31 @@ class QFn:
         if isinstance(e, ast.Name) and e.id in env: return "v_" + e.id, env[e.id], []
         if isinstance(e, ast.Constant) and type(e.value) is int: return "%d" % e.value if e.value >= 0 else "(%d)" % e.value, "int", []
         if isinstance(e, ast.List) and not e.elts: return "(@nil pstr)", "list", []
+        if ast.unparse(e) == "self.legs" and "self_legs" in env: return "v_self_legs", "legs", []
         if isinstance(e, ast.Call) and isinstance(e.func, ast.Name) and e.func.id == "len" and len(e.args) == 1 and not e.keywords:
             c, t, g = self.expr(e.args[0], env)
-            if t != "list": bad(e, "len of %s" % t)
+            if t not in ("list", "legs"): bad(e, "len of %s" % t)
             return "(Z.of_nat (length %s))" % c, "int", g
+        if isinstance(e, ast.ListComp) and len(e.generators) == 2 and not e.generators[0].ifs and not e.generators[1].ifs and isinstance(e.elt, ast.Name) \
+           and isinstance(e.generators[1].target, ast.Name) and e.elt.id == e.generators[1].target.id and isinstance(e.generators[0].target, ast.Name) \
+           and isinstance(e.generators[1].iter, ast.Name) and e.generators[1].iter.id == e.generators[0].target.id:
+            c, t, g = self.expr(e.generators[0].iter, env)      # [v for leg in L for v in leg]
+            if t != "legs": bad(e, "flattening %s" % t)
+            return "(concat %s)" % c, "list", g
+        if isinstance(e, ast.Subscript) and not isinstance(e.slice, ast.Slice) and not (isinstance(e.slice, ast.Constant) and e.slice.value == 0):
+            c, t, g = self.expr(e.value, env); i, ti, gi_ = self.expr(e.slice, env)
+            if t != "legs" or ti != "int": bad(e, "subscript of %s by %s" % (t, ti))
+            return "(list_get (@nil pstr) %s %s)" % (c, i), "list", g + gi_ + [("(idx_ok %s %s)" % (c, i), "FRaised EIndex")]
         if isinstance(e, ast.Call) and isinstance(e.func, ast.Attribute) and not e.keywords:
             c, t, g = self.expr(e.func.value, env)
-            if e.func.attr == "copy" and t == "list" and not e.args: return c, "list", g
+            if e.func.attr == "copy" and t in ("list", "ps") and not e.args: return c, t, g
             if e.func.attr == "index" and t == "list" and len(e.args) == 1:
                 x, tx, gx = self.expr(e.args[0], env)
                 if tx != "ps": bad(e, "index of %s" % tx)
                 return "(Z.of_nat (match find %s %s with Some k_ => k_ | None => O end))" % (x, c), "int", g + gx + [("(memS %s %s)" % (x, c), VE)]
         if isinstance(e, ast.Subscript) and isinstance(e.slice, ast.Constant) and e.slice.value == 0:
             c, t, g = self.expr(e.value, env)
+            if t == "legs": return "(@hd (list pstr) (@nil pstr) %s)" % c, "list", g + [("(negb (Nat.eqb (length %s) 0))" % c, "FRaised EIndex")]
             if t != "list": bad(e, "subscript of %s" % t)
             return "(@hd pstr (@nil pl) %s)" % c, "ps", g + [("(negb (Nat.eqb (length %s) 0))" % c, "FRaised EIndex")]
         if isinstance(e, ast.BinOp) and isinstance(e.op, (ast.Add, ast.Sub)):
@@ -81,6 +110,14 @@ class QFn:
         """-> list of (coq bool, guards) to be tested in order (short-circuit `and`)"""
         if isinstance(t, ast.BoolOp) and isinstance(t.op, ast.And):
             return [c for v in t.values for c in self.cond(v, env)]
+        if isinstance(t, ast.BoolOp) and isinstance(t.op, ast.Or):
+            parts = [self.cond(v, env) for v in t.values]
+            if any(len(p_) != 1 or p_[0][1] or p_[0][2] is not None for p_ in parts): bad(t, "or of conditions that can raise")
+            return [("(" + " || ".join(p_[0][0] for p_ in parts) + ")", [], None)]
+        if isinstance(t, ast.Call) and self.callee(t) is not None and self.callee(t).purebool:
+            fn = self.callee(t)
+            args, g = self.call_args(fn, t, env)
+            return [("(%s %s)" % (fn.coq, " ".join(args)), g, None)]
         if isinstance(t, ast.UnaryOp) and isinstance(t.op, ast.Not):
             cs = self.cond(t.operand, env)
             if len(cs) != 1: bad(t, "not of a conjunction")
@@ -141,7 +178,8 @@ class QFn:
         return out
 
     def ret_default(self, env):
-        if self.mutator: return "(FRet %s)" % pat("v_" + n for n in self.retnames)
+        if self.generator: return "(FRet v_out_)"
+        if self.mutator: return "(FRet %s)" % (pat("v_" + n for n in self.retnames) if self.retnames else "tt")
         return "FNone"
 
     def block(self, stmts, env, ft, cont=None):
@@ -153,8 +191,21 @@ class QFn:
         if isinstance(s, ast.Continue):
             if cont is None: bad(s, "continue outside a loop")
             return cont(env)
+        if isinstance(s, ast.Break):
+            if self.brk is None: bad(s, "break outside a range loop")
+            return self.brk(env)
+        if isinstance(s, ast.Raise) and isinstance(s.exc, ast.Call) and isinstance(s.exc.func, ast.Name) and s.cause is None:
+            return 'FRaised (EUser "%s"%%string)' % s.exc.func.id
+        if isinstance(s, ast.Expr) and isinstance(s.value, ast.Yield) and self.generator:
+            c, t, g = self.expr(s.value.value, env)
+            if [ {"list": "legs"}.get(t) ] != self.ret: bad(s, "yielded type %s" % t)
+            return self.guard(g, "(let v_out_ := v_out_ ++ [%s] in %s)" % (c, R(env)))
         if isinstance(s, ast.Return):
             if s.value is None: return self.ret_default(env)
+            if self.purebool:
+                cs = self.cond(s.value, env)
+                if len(cs) != 1 or cs[0][1] or cs[0][2] is not None: bad(s, "a bool function that can raise")
+                return cs[0][0]
             if isinstance(s.value, ast.Tuple):
                 if all(isinstance(x, ast.Constant) and x.value is None for x in s.value.elts): return "FNone"
                 vals = [self.expr(x, env) for x in s.value.elts]
@@ -170,6 +221,13 @@ class QFn:
             return self.branch(s.test, env, yes, no)
         if isinstance(s, ast.Assign) and len(s.targets) == 1:
             tg, v = s.targets[0], s.value
+            if isinstance(v, ast.Call) and isinstance(v.func, ast.Name) and v.func.id == "set" and len(v.args) == 1 and self.callee(v.args[0]) is not None:
+                v = v.args[0]       # a set of strings, only iterated and searched: the list of its members (see the contracts)
+            if isinstance(v, ast.BinOp) and isinstance(v.op, ast.MatMult) and isinstance(tg, ast.Name):
+                x, tx, gx = self.expr(v.left, env); y, ty, gy = self.expr(v.right, env)
+                if (tx, ty) != ("ps", "ps") or env.get(tg.id, "ps") != "ps": bad(s, "@ on %s, %s" % (tx, ty))
+                env2 = dict(env); env2[tg.id] = "ps"
+                return self.guard(gx + gy, "(match multiply_code %s %s with Ok m_ => let v_%s := m_ in %s | ValueError => %s end)" % (x, y, tg.id, R(env2), VE))
             fn = self.callee(v)
             if fn is not None:
                 args, g = self.call_args(fn, v, env)
@@ -214,23 +272,42 @@ class QFn:
                     i, ti, gi_ = self.expr(s.value.args[0], env); x, tx, gx = self.expr(s.value.args[1], env)
                     if (ti, tx) != ("int", "ps"): bad(s, "insert of %s, %s" % (ti, tx))
                     return self.guard(gi_ + gx, "(let v_%s := insert_at (norm_insert (length v_%s) %s) %s v_%s in %s)" % (L, L, i, x, L, R(env)))
-        if isinstance(s, ast.For) and not s.orelse and isinstance(s.target, ast.Name) and isinstance(s.iter, ast.Name) and env.get(s.iter.id) == "list":
+        if isinstance(s, ast.For) and not s.orelse and isinstance(s.target, ast.Name) and self.callee(s.iter) is not None:
+            fn = self.callee(s.iter)
+            if fn.mutator or len(fn.ret) != 1 or fn.ret[0] not in ELT: bad(s, "iteration over the result of %s" % fn.name)
+            args, g = self.call_args(fn, s.iter, env)
+            tmp = "it%d_" % s.lineno
+            env2 = dict(env); env2[tmp] = fn.ret[0]
+            s2 = ast.copy_location(ast.For(target=s.target, iter=ast.Name(id=tmp, ctx=ast.Load()), body=s.body, orelse=[]), s)
+            return self.guard(g, "(match %s %s with FRet r_ => let v_%s := r_ in %s %s)" % (fn.coq, " ".join(args), tmp, self.block([s2] + rest, env2, ft, cont), PROP))
+        if isinstance(s, ast.For) and not s.orelse and isinstance(s.target, ast.Name) and isinstance(s.iter, ast.Call) and ast.unparse(s.iter.func) == "range" and len(s.iter.args) == 2:
+            return self.range_loop(s, rest, env, ft, cont)
+        if isinstance(s, ast.For) and not s.orelse and isinstance(s.target, ast.Name) and isinstance(s.iter, ast.Name) and env.get(s.iter.id) in ELT:
             L, x = s.iter.id, s.target.id
             if x in env: bad(s, "loop variable shadows a local")
             asg = self.assigned(s.body)
-            jumps = any(isinstance(n, (ast.Continue, ast.Return, ast.Break)) for n in ast.walk(ast.Module(body=s.body, type_ignores=[])))
-            if any(isinstance(n, ast.Break) for n in ast.walk(s)): bad(s, "break")
+            own = []       # jumps that belong to this loop (not to a loop nested in it)
+            def scan(stmts):
+                for n in stmts:
+                    if isinstance(n, (ast.Continue, ast.Return, ast.Break)): own.append(n)
+                    elif isinstance(n, ast.If): scan(n.body); scan(n.orelse)
+                    elif isinstance(n, (ast.For, ast.While)):
+                        for m in ast.walk(n):
+                            if isinstance(m, ast.Return): own.append(m)
+            scan(s.body)
+            jumps = any(not isinstance(n, ast.Continue) for n in own)
+            if any(isinstance(n, ast.Break) for n in own): bad(s, "break")
             state = [n for n in asg if n in env]
             if L not in asg and not jumps:
-                # a fold over the list
-                if not state: bad(s, "a loop without state")
-                benv = dict(env); benv[x] = "ps"
-                body = self.block(s.body, benv, lambda e2: "(FRet %s)" % pat("v_" + n for n in state))
+                # a fold over the list (continue = end of this iteration)
+                benv = dict(env); benv[x] = ELT[env[L]]
+                stt = pat("v_" + n for n in state) if state else "tt"
+                body = self.block(s.body, benv, lambda e2: "(FRet %s)" % stt, lambda e2: "(FRet %s)" % stt)
                 for n in ast.walk(ast.Module(body=rest, type_ignores=[])):
                     if isinstance(n, ast.Name) and n.id not in env and n.id in asg: bad(s, "%s is assigned only inside the loop and read after it" % n.id)
-                sp = ("'" if len(state) > 1 else "") + pat("v_" + n for n in state)
-                return "(match fold_left (fun (o_ : fres (%s)) (v_%s : pstr) => match o_ with FRet st_ => let %s := st_ in %s %s) v_%s (FRet %s) with FRet st_ => let %s := st_ in %s %s)" % (
-                    " * ".join(CT[env[n]] for n in state), x, sp, body, PROP, L, pat("v_" + n for n in state), sp, R(env), PROP)
+                sp = (("'" if len(state) > 1 else "") + pat("v_" + n for n in state)) if state else "_"
+                return "(match fold_left (fun (o_ : fres (%s)) (v_%s : %s) => match o_ with FRet st_ => let %s := st_ in %s %s) v_%s (FRet %s) with FRet st_ => let %s := st_ in %s %s)" % (
+                    " * ".join(CT[env[n]] for n in state) if state else "unit", x, CT[ELT[env[L]]], sp, body, PROP, L, stt, sp, R(env), PROP)
             return self.loop(s, rest, env, ft, cont, index=(L, x))
         if isinstance(s, ast.While) and not s.orelse:
             return self.loop(s, rest, env, ft, cont, index=None)
@@ -262,6 +339,26 @@ class QFn:
             name, ps, " ".join("(v_%s : %s)" % (n, CT[env[n]]) for n in vs), self.rett(), inner))
         return "(%s fuel %s%s)" % (name, start, " ".join("v_" + n for n in vs))
 
+    def range_loop(self, s, rest, env, ft, cont):
+        """for i in range(a, b): ... (with break / continue): a Fixpoint by structural recursion over the indices; what follows the loop is inside it"""
+        if cont is not None or self.brk is not None: bad(s, "a nested loop of this kind")
+        a, ta, ga = self.expr(s.iter.args[0], env); b, tb, gb = self.expr(s.iter.args[1], env)
+        if (ta, tb) != ("int", "int"): bad(s, "range of %s, %s" % (ta, tb))
+        x = s.target.id
+        if x in env: bad(s, "loop variable shadows a local")
+        self.nloop += 1
+        name = "%s_loop%d" % (self.coq, self.nloop)
+        vs = list(env)
+        after = self.block(rest, env, ft, None)
+        benv = dict(env); benv[x] = "int"
+        again = lambda e2: "(%s rest_ %s)" % (name, " ".join("v_" + n for n in vs))
+        self.brk = lambda e2: after
+        body = self.block(s.body, benv, again, again)
+        self.brk = None
+        self.aux.append("Fixpoint %s (idx_ : list Z) %s {struct idx_} : fres (%s) :=\n  match idx_ with [] => %s | v_%s :: rest_ =>\n  %s\n  end." % (
+            name, " ".join("(v_%s : %s)" % (n, CT[env[n]]) for n in vs), self.rett(), after, x, body))
+        return self.guard(ga + gb, "(%s (map (fun k_ => %s + Z.of_nat k_) (seq 0 (Z.to_nat (%s - %s)))) %s)" % (name, a, b, a, " ".join("v_" + n for n in vs)))
+
     def callee(self, v):
         if isinstance(v, ast.Call) and isinstance(v.func, ast.Attribute) and isinstance(v.func.value, ast.Name) and v.func.value.id == "self" and not v.keywords:
             fn = self.tr.fns.get(v.func.attr)
@@ -270,10 +367,14 @@ class QFn:
         return None
 
     def call_args(self, fn, v, env):
-        if len(v.args) != len(fn.params): bad(v, "arity of %s" % fn.name)
+        fparams = [p_ for p_ in fn.params if p_[0] != "self_legs"]
+        if len(v.args) != len(fparams): bad(v, "arity of %s" % fn.name)
         cs, gs = ([self.fuelname] if fn.fuel else []), []
         if fn.fuel: self.fuel = True
-        for a, (_, pt) in zip(v.args, fn.params):
+        if fn.needs_legs:
+            if "self_legs" not in env: bad(v, "self.legs needed by %s" % fn.name)
+            cs.append("v_self_legs")
+        for a, (_, pt) in zip(v.args, fparams):
             if fn.mutator and pt == "list" and not isinstance(a, ast.Name): bad(v, "a list argument that is changed in place must be a name")
             c, t, g = self.expr(a, env)
             if t != pt: bad(v, "argument type %s for %s" % (t, pt))
@@ -286,7 +387,7 @@ class QFn:
         body = n.body
         # a function that is one list comprehension with a filter
         stm = [x for x in body if not (isinstance(x, ast.Expr) and isinstance(x.value, ast.Constant))]
-        if len(stm) == 1 and isinstance(stm[0], ast.Return) and isinstance(stm[0].value, ast.ListComp):
+        if len(stm) == 1 and isinstance(stm[0], ast.Return) and isinstance(stm[0].value, ast.ListComp) and len(stm[0].value.generators) == 1:
             lc = stm[0].value
             if len(lc.generators) != 1 or len(lc.generators[0].ifs) != 1 or not isinstance(lc.generators[0].target, ast.Name) or not isinstance(lc.elt, ast.Name) or lc.elt.id != lc.generators[0].target.id: bad(lc, "comprehension")
             it, ti, gi_ = self.expr(lc.generators[0].iter, env)
@@ -295,15 +396,25 @@ class QFn:
             benv = dict(env); benv[x] = "ps"
             txt = "(fold_left (fun (o_ : fres (list pstr)) (v_%s : pstr) => match o_ with FRet acc_ => %s %s) %s (FRet (@nil pstr)))" % (
                 x, self.branch(lc.generators[0].ifs[0], benv, "(FRet (acc_ ++ [v_%s]))" % x, "(FRet acc_)"), PROP, it)
+        elif self.purebool:
+            if len(stm) != 1 or not isinstance(stm[0], ast.Return): bad(n, "a bool function that is not one return")
+            txt = self.block(stm, env, lambda e2: bad(n, "fall-through"))
+            ps = " ".join("(v_%s : %s)" % (nm, CT[t]) for nm, t in self.params)
+            return "(* MorphFactory.%s, lines %d-%d *)\nDefinition %s %s : bool :=\n  %s." % (self.name, n.lineno, n.end_lineno, self.coq, ps, txt)
         else:
-            txt = self.block(body, env, lambda e2: self.ret_default(e2))
+            if self.generator:
+                env["out_"] = self.ret[0]
+                txt = "(let v_out_ := (@nil (list pstr)) in %s)" % self.block(body, env, lambda e2: self.ret_default(e2))
+            else:
+                txt = self.block(body, env, lambda e2: self.ret_default(e2))
         ps = ("(fuel : nat) " if self.fuel else "") + " ".join("(v_%s : %s)" % (nm, CT[t]) for nm, t in self.params)
         head = "(* MorphFactory.%s, lines %d-%d *)\n" % (self.name, n.lineno, n.end_lineno)
         return head + "".join(a + "\n" for a in self.aux) + "Definition %s %s : fres (%s) :=\n  %s." % (self.coq, ps, self.rett(), txt)
 
 
 class QueueTranslator:
-    WANT = ["_get_anti_commutates", "_get_max_connected", "_append_to_queue", "_get_queue"]
+    WANT = ["_get_anti_commutates", "_get_max_connected", "_append_to_queue", "_get_queue",
+            "is_empty_legs", "get_vertices", "_gen_one_legs", "get_one_vertices", "check_dependency_one_leg"]
     HEADER = """(* GENERATED by tools/py2coq.py (py2coq_queue.py) from src/paulie/classifier/morph_factory.py — do not edit *)
 From PauLieRefine Require Import PySem.
 From PauLie Require Import Pauli Collection.
